@@ -746,13 +746,13 @@ Proof.
   assert (Es : s = a ++ t) by (symmetry; apply firstn_skipn).
   assert (La : length a = length mask) by (unfold a; rewrite firstn_length, Lm; dlia).
   assert (Oa : bytes_ok a = true) by (now apply bytes_ok_firstn).
-  rewrite Es at 2.
+  assert (Ht : (nb <= length s)%nat) by exact Hs.
+  clearbody a t. clear Hs Ht Ok. subst s.
   set (n1 := snow3g_merge mask (xor_bytes_l a kss) (a ++ t)).
   assert (L1 : length n1 = nb) by (unfold n1; now rewrite snow3g_merge_length).
   rewrite (firstn_app_exact _ n1) by (symmetry; exact L1).
   rewrite (skipn_app_exact _ n1) by (symmetry; exact L1).
-  unfold n1. rewrite (snow3g_merge_inplace_twice mask kss a t t La Oa Fm).
-  symmetry. exact Es.
+  unfold n1. now rewrite (snow3g_merge_inplace_twice mask kss a t t La Oa Fm).
 Qed.
 
 (* job level, in place *)
@@ -792,8 +792,11 @@ Proof.
   unfold m2, snow3g_uea2_inplace, snow3g_uea2_job. cbv zeta. fold base. rewrite Hob.
   apply N.eqb_neq in Hbl. rewrite Hbl. cbn [andb].
   assert (Lb : length (firstn base msg) = base) by (rewrite firstn_length; dlia).
-  rewrite firstn_app_exact, skipn_app_exact by (symmetry; exact Lb).
   set (s := skipn base msg).
+  set (X := snow3g_f8_bits key iv s s bitlen 0).
+  rewrite (firstn_app_exact _ (firstn base msg) X base), (skipn_app_exact _ (firstn base msg) X base)
+    by (symmetry; exact Lb).
+  unfold X.
   assert (Hs : (N.to_nat (N.shiftr (bitlen + 7) 3) <= length s)%nat)
     by (unfold s; rewrite skipn_length; fold nb; dlia).
   destruct (snow3g_f8_bits_ob0_twice key iv s bitlen Hs) as (T1 & T2 & T3).
